@@ -117,3 +117,11 @@ impl<K: ExpiredKey<E>, E: Expiration, V: Copy> KeyExpList<K, E, V> {
         self.min_exp = new_min_exp;
     }
 }
+
+#[cfg(ishape_rust_itree_verif)]
+impl<K, E: Copy, V> KeyExpList<K, E, V> {
+    /// Read-only view of the cached earliest expiration (verification hook).
+    pub fn verif_min_exp(&self) -> E {
+        self.min_exp
+    }
+}
